@@ -6,6 +6,7 @@ import (
 	"go/token"
 	"go/types"
 	"os"
+	"runtime/debug"
 	"strings"
 	"time"
 
@@ -18,46 +19,46 @@ type pathEnd struct{ why string }
 type engineErr struct{ msg string }
 
 type Engine struct {
-	c     *Ctx
-	sol   *Solver
-	prog  *ssa.Program
-	finfo map[*ssa.Function]*fnInfo
+	c            *Ctx
+	sol          *Solver
+	prog         *ssa.Program
+	finfo        map[*ssa.Function]*fnInfo
 	nstate, nobj int
-	work  []*State
-	globals map[*ssa.Global]int
-	inited  map[*ssa.Package]bool
-	base    *State // state after package initialisation
+	work         []*State
+	globals      map[*ssa.Global]int
+	inited       map[*ssa.Package]bool
+	base         *State // state after package initialisation
 
-	harness    string
-	violations []*violation
-	vioSites   map[string]bool
-	reached    map[string]map[string]interface{}
-	paths      int
-	pathsDone  int
-	instrs     int64
-	unknowns   int
-	maxSteps   int
-	deadline   time.Time
-	verbose    int
-	funcsSeen  map[string]bool
-	assumptions map[string]bool
-	concretizeCnt map[string]int
-	iters      map[int]*iterState
+	harness         string
+	violations      []*violation
+	vioSites        map[string]bool
+	reached         map[string]map[string]interface{}
+	paths           int
+	pathsDone       int
+	instrs          int64
+	unknowns        int
+	maxSteps        int
+	deadline        time.Time
+	verbose         int
+	funcsSeen       map[string]bool
+	assumptions     map[string]bool
+	concretizeCnt   map[string]int
+	iters           map[int]*iterState
 	stopOnViolation bool
-	mergeStats int
-	tier string
-	usedModels bool
-	uniq map[string]int
-	ifShapes map[*ssa.If]*ifShape
-	noIfConv bool
-	ifConverted int
-	dbgLabels map[int]string
-	shard int
-	noModel bool
-	symIdx bool
-	modelHits int
-	lastProg time.Time
-	symLen bool
+	mergeStats      int
+	tier            string
+	usedModels      bool
+	uniq            map[string]int
+	ifShapes        map[*ssa.If]*ifShape
+	noIfConv        bool
+	ifConverted     int
+	dbgLabels       map[int]string
+	shard           int
+	noModel         bool
+	symIdx          bool
+	modelHits       int
+	lastProg        time.Time
+	symLen          bool
 }
 
 func (e *Engine) errf(format string, a ...interface{}) {
@@ -470,14 +471,34 @@ func (e *Engine) globalObj(s *State, g *ssa.Global) int {
 		return id
 	}
 	// globals are created on the base state before any fork
+	sentinel := false
 	if e.base != nil {
 		if g.Pkg != nil && !e.inited[g.Pkg] {
-			e.noteUninit(g)
+			if et := g.Type().(*types.Pointer).Elem(); types.Identical(et, types.Universe.Lookup("error").Type()) {
+				sentinel = true
+			} else {
+				e.noteUninit(g)
+			}
 		}
 	}
 	et := g.Type().(*types.Pointer).Elem()
 	e.nobj++
 	o := &Object{ID: e.nobj, Val: e.zero(et), T: et, owner: -1, Label: "global " + g.String()}
+	if sentinel {
+		// sentinel error of a package whose init is not run: a distinct opaque non-nil error
+		errPkg := e.prog.ImportedPackage("errors")
+		est := errPkg.Type("errorString").Type()
+		e.nobj++
+		eo := &Object{ID: e.nobj, Val: &StructV{Fields: []Value{e.mkString(g.String())}}, T: est, owner: -1, Label: "sentinel " + g.String()}
+		s.heap[eo.ID] = eo
+		if e.base != nil {
+			e.base.heap[eo.ID] = eo
+		}
+		for _, w := range e.work {
+			w.heap[eo.ID] = eo
+		}
+		o.Val = &IfaceV{T: types.NewPointer(est), V: &Pointer{Obj: eo.ID}}
+	}
 	e.globals[g] = o.ID
 	// install in every live state (base + worklist + current)
 	s.heap[o.ID] = o
@@ -510,6 +531,12 @@ func (e *Engine) set(f *Frame, v ssa.Value, val Value) {
 
 // ---------------------------------------------------------------- memory access
 
+func (e *Engine) checkGen(s *State, o *Object, gen int, what string) {
+	if o.PoolCap && gen != o.Gen {
+		e.fail(s, "use-after-release", fmt.Sprintf("%s through a stale reference: %s was released at %s and has been handed out again", what, o.Label, o.RelPos))
+	}
+}
+
 func (e *Engine) checkLive(s *State, o *Object, what string) {
 	if o.Released {
 		e.fail(s, "use-after-release", fmt.Sprintf("%s of %s released at %s", what, o.Label, o.RelPos))
@@ -524,6 +551,7 @@ func (e *Engine) load(s *State, p *Pointer) Value {
 	e.checkLive(s, o, "read")
 	v := getPath(o.Val, p.Path)
 	if p.BIdx != nil {
+		e.checkGen(s, o, p.Gen, "read")
 		ba, ok := v.(*ByteArr)
 		if !ok {
 			e.errf("load: BIdx on %T", v)
@@ -539,6 +567,9 @@ func (e *Engine) store(s *State, p *Pointer, val Value) {
 	}
 	o := s.obj(p.Obj)
 	e.checkLive(s, o, "write")
+	if p.BIdx != nil {
+		e.checkGen(s, o, p.Gen, "write")
+	}
 	o = s.wobj(p.Obj)
 	if p.BIdx != nil {
 		ba := getPath(o.Val, p.Path).(*ByteArr)
@@ -562,6 +593,7 @@ func (e *Engine) arrOf(s *State, sl *SliceV) *ByteArr {
 	}
 	o := s.obj(sl.Base.Obj)
 	e.checkLive(s, o, "read")
+	e.checkGen(s, o, sl.Base.Gen, "read")
 	ba, ok := getPath(o.Val, sl.Base.Path).(*ByteArr)
 	if !ok {
 		e.errf("arrOf: not a byte array: %T", getPath(o.Val, sl.Base.Path))
@@ -572,6 +604,7 @@ func (e *Engine) arrOf(s *State, sl *SliceV) *ByteArr {
 func (e *Engine) setArr(s *State, sl *SliceV, ba *ByteArr) {
 	o := s.obj(sl.Base.Obj)
 	e.checkLive(s, o, "write")
+	e.checkGen(s, o, sl.Base.Gen, "write")
 	o = s.wobj(sl.Base.Obj)
 	o.Val = setPath(o.Val, sl.Base.Path, ba)
 }
@@ -740,7 +773,7 @@ func (e *Engine) runPath(s *State) (err error) {
 			case engineErr:
 				err = fmt.Errorf("%s\n  at %s\n  stack: %s", x.msg, e.curPos(s), strings.Join(e.stack(s), " <- "))
 			default:
-				panic(r)
+				err = fmt.Errorf("engine panic: %v\n  at %s\n  stack: %s\n%s", r, e.curPos(s), strings.Join(e.stack(s), " <- "), debug.Stack())
 			}
 		}
 	}()
@@ -855,7 +888,7 @@ func (e *Engine) step(s *State, f *Frame, in ssa.Instruction) {
 	case *ssa.RunDefers:
 		if n := len(f.defers); n > 0 {
 			d := f.defers[n-1]
-			f.defers = f.defers[:n-1:n-1]
+			f.defers = f.defers[: n-1 : n-1]
 			e.invoke(s, f, d.fn, d.method, d.args, -1, nil, false)
 			return
 		}
@@ -1156,7 +1189,7 @@ func (e *Engine) evalValue(s *State, f *Frame, in ssa.Value) Value {
 				if !e.symIdx && !bi.IsConst() {
 					bi = c.BV(e.concretize(s, bi, "byte index"), 64)
 				}
-				return &Pointer{Obj: a.Base.Obj, Path: a.Base.Path, BIdx: bi}
+				return &Pointer{Obj: a.Base.Obj, Path: a.Base.Path, BIdx: bi, Gen: a.Base.Gen}
 			}
 			i := e.concretize(s, c.Add(a.Off, idx), "slice index")
 			return &Pointer{Obj: a.Base.Obj, Path: append(append([]int(nil), a.Base.Path...), int(i))}
